@@ -193,10 +193,28 @@ def main(tier, replay):
         what = "proof obligation no longer checks: " + (r["failed"][:600] or "see log")
         if not ok_gen:
             what = "translator stopped (broken tie): " + (gen_log.strip().splitlines()[-1] if gen_log.strip() else "?")
-        concrete = [sg for sg, (o, _) in findings.items() if not o.get("no_input")]
-        if not concrete:
-            v.violation({"kind": "obligation", "what": what, "skeleton_hazards_failing": conf_failed,
-                         "unsafe_accessor_sites": unsafe,
+        # which concrete finding shows which broken obligation on the real client
+        concrete = [sg for sg, (o, _) in findings.items() if not o.get("no_input") and "CallProgressive" not in sg]
+        EXPLAINS = {
+            "h1_reply_sends_guarded": ("runSignalReply",), "h2_run_blocking_known": ("runSignalReply", "client.(*Client).run"),
+            "h3_waiters_release": ("runSignalReply", "waitForReply"), "h9_no_orphan_expect": ("runSignalReply",),
+            "h4_close_sequence": ("client.(*Client).Close", "Done not signalled"), "h5_run_exits": ("Done not signalled", "done-never-signalled"),
+            "h7_inv_goroutines": ("runHandleInvocation", "cleanupInvHandlersQueue"), "h8_peer_closed_once": ("close of closed channel", "send on closed channel"),
+        }
+        unexplained = []
+        for hz in conf_failed:
+            pats = EXPLAINS.get(hz)
+            if pats is None or not any(p_ in sg for sg in concrete for p_ in pats):
+                unexplained.append(hz)
+        site_fns = sorted(set(u.split(":")[0] for u in unsafe))
+        sites_unexplained = [fn for fn in site_fns
+                             if not any(("crash" in sg and (fn in sg or "runtime error" in sg or "interface conversion" in sg)) for sg in concrete)]
+        other = sorted(o for o in set(r["obligations"]) - set(r["discharged"])
+                       if not o.startswith("Client/ClientConform"))
+        if unexplained or sites_unexplained or other or not ok_gen or (not conf_failed and not unsafe):
+            v.violation({"kind": "obligation", "what": what,
+                         "skeleton_hazards_failing": conf_failed, "hazards_without_failing_input": unexplained,
+                         "unsafe_accessor_sites": unsafe, "site_functions_without_failing_input": sites_unexplained,
                          "undischarged": sorted(set(r["obligations"]) - set(r["discharged"]))},
                         tag="obligation", no_input=True)
         else:
